@@ -34,6 +34,7 @@ type c20Reads struct {
 	Origin string        `json:"origin"`
 	D1     W             `json:"d1"`
 	D2     W             `json:"d2,omitempty"`
+	More   []W           `json:"more,omitempty"` // origin layers: the layers after the second one
 	Calls  []c20lib.Call `json:"calls"`
 }
 
@@ -47,7 +48,7 @@ type c20Writer struct {
 
 func init() {
 	register(&Prop{ID: "C20", Run: c20Run,
-		Rule: "documents from the shared generator with empty containers / empty lists at every depth (PEmpty raised), lists of 0-7 and 10-13 items built by successive Append calls (so lengths 3, 5, 6, 7, 10-13 have spare capacity), obtained as freshly built, loaded via FromReader, FromMap, merged (both list strategies), cloned, sealed, and as two-layer overlays whose upper layer is unrelated, a near copy of the lower one, or an addendum to it (below the same keys some lists overridden by 1-3 additional items, some scalars overridden); read calls drawn from the whole read API with paths that exist, paths that do not, and list-index paths (flattened paths of the document with [i] groups, small out-of-range indexes, and indexes far out of range that no earlier round of the run has used), Merged with the default and the ListsMergeAppend option, plus ContainerBuilder.Merge(other, opts) with the document as receiver and as `other` (both strategies; other = unrelated / near copy / addendum). reads: fingerprint (reflection incl. unexported fields, nil-vs-empty maps, slice len/cap and the backing array between len and cap) before/after every call; every view handed out (merged view, layer snapshot, clone, merge result) is retained and must be unchanged after all later reads. race: 16 goroutines x 3-8 random read calls on a fresh instance per round under `go build -race` (200 rounds quick, 5000 thorough); the concurrent readers are the first to read the instance and the first in the process to use the round's paths / child names - the single-threaded reference observations are computed only afterwards, on another fresh instance - so anything a read path initialises or memoises lazily (in the document or in package-level state) is initialised under concurrency. Non-trivial: the document has at least one composite child. distinct = distinct canonical case JSON.",
+		Rule: "documents from the shared generator with empty containers / empty lists at every depth (PEmpty raised), lists of 0-7 and 10-13 items built by successive Append calls (so lengths 3, 5, 6, 7, 10-13 have spare capacity), obtained as freshly built, loaded via FromReader, FromMap, merged (both list strategies), cloned, sealed, as two-layer overlays whose upper layer is unrelated, a near copy of the lower one, or an addendum to it (below the same keys some lists overridden by 1-3 additional items, some scalars overridden), and as overlays of 3-5 layers generated together position by position (origin `layers`: below shared keys every layer independently holds nothing / null / a scalar / a list / a container, the containers several layers hold at one key generated together again, so the layers overlap and disagree in kind at every depth - null or leaf then container then container again, container then null then container, ... - with empty containers at every depth); read calls drawn from the whole read API with paths that exist, paths that do not, and list-index paths (flattened paths of the document with [i] groups, small out-of-range indexes, and indexes far out of range that no earlier round of the run has used), Merged with the default and the ListsMergeAppend option, plus ContainerBuilder.Merge(other, opts) with the document as receiver and as `other` (both strategies; other = unrelated / near copy / addendum). reads: fingerprint (reflection incl. unexported fields, nil-vs-empty maps, slice len/cap and the backing array between len and cap) before/after every call; every view handed out (merged view, layer snapshot, clone, merge result) is retained and must be unchanged after all later reads; for overlays the fingerprint is also taken per layer, and after all reads every layer's snapshot content must equal that of the same layer of an identically built overlay nobody has read. race: 16 goroutines x 3-8 random read calls on a fresh instance per round under `go build -race` (200 rounds quick, 5000 thorough); the concurrent readers are the first to read the instance and the first in the process to use the round's paths / child names - the single-threaded reference observations are computed only afterwards, on another fresh instance - so anything a read path initialises or memoises lazily (in the document or in package-level state) is initialised under concurrency. Non-trivial: the document has at least one composite child. distinct = distinct canonical case JSON.",
 		Assumptions: []string{"the race detector only observes the schedules that occur; the schedule quantifier is carried by the write-freedom theorem over the extracted effect table",
 			"effect extractor rules (syntactic points-to, freshness, allow-list of external calls, caller-supplied callbacks do not write) are trusted and validated dynamically here",
 			"Go memory model and runtime"}})
@@ -69,11 +70,18 @@ func c20Gen() *DocGen {
 	return g
 }
 
-func c20GenCalls(r *rand.Rand, g *DocGen, origin string, d1, d2 W, n int) []c20lib.Call {
+func c20GenCalls(r *rand.Rand, g *DocGen, origin string, d1, d2 W, n int, more ...W) []c20lib.Call {
 	var paths, lists []string
 	wirePaths(d1, "", &paths, &lists)
 	if d2 != nil {
 		wirePaths(d2, "", &paths, &lists)
+	}
+	for _, m := range more {
+		wirePaths(m, "", &paths, &lists)
+	}
+	layerNames := []string{"zbase", "atop", "nolayer"}
+	if origin == "layers" {
+		layerNames = append(c20lib.LayerNames(2+len(more)), "nolayer")
 	}
 	paths = append(paths, "put.here", "put")
 	anyPath := func() string {
@@ -98,8 +106,8 @@ func c20GenCalls(r *rand.Rand, g *DocGen, origin string, d1, d2 W, n int) []c20l
 	}
 	out := make([]c20lib.Call, 0, n)
 	for i := 0; i < n; i++ {
-		if origin == "overlay" {
-			c := c20lib.Call{M: pick(r, c20OverlayCalls), Path: anyPath(), Layer: pick(r, []string{"zbase", "atop", "nolayer"})}
+		if origin == "overlay" || origin == "layers" {
+			c := c20lib.Call{M: pick(r, c20OverlayCalls), Path: anyPath(), Layer: pick(r, layerNames)}
 			switch c.M {
 			case "OverlayDocument.Merged(append)":
 				c.M, c.Opt = "OverlayDocument.Merged", "append"
@@ -158,7 +166,71 @@ func c20GenCalls(r *rand.Rand, g *DocGen, origin string, d1, d2 W, n int) []c20l
 	return out
 }
 
-var c20Origins = []string{"built", "loaded", "frommap", "merged", "merged-append", "cloned", "sealed", "overlay", "overlay"}
+var c20Origins = []string{"built", "loaded", "frommap", "merged", "merged-append", "cloned", "sealed", "overlay", "overlay", "layers", "layers"}
+
+// c20GenStack: n layers generated TOGETHER, position by position.  Below a shared pool of keys every layer
+// independently holds nothing, null, a scalar, a list or a container at a key, and the containers that several
+// layers hold at one key are again generated together - so at every depth the layers overlap, agree and
+// DISAGREE in kind (null / scalar / list in one layer, a container in the next, a container again in a later
+// one, in every order), the way stacks of defaults / environment / override documents do.  Empty containers
+// occur at every depth (a position where a layer rolled "container" and none of the keys below).
+func c20GenStack(r *rand.Rand, g *DocGen, n, depth int) []W {
+	ms := make([]map[string]any, n)
+	for i := range ms {
+		ms[i] = map[string]any{}
+	}
+	nk := 1 + r.Intn(3)
+	if depth == 0 {
+		nk = 2 + r.Intn(3)
+	}
+	for _, ki := range r.Perm(len(g.Keys))[:nk] {
+		k := g.Keys[ki]
+		var conts []int
+		for i := 0; i < n; i++ {
+			switch x := r.Intn(20); {
+			case x < 5: // the layer does not define the key
+			case x < 8:
+				ms[i][k] = scalarWire(nil)
+			case x < 10:
+				ms[i][k] = g.Scalar(r)
+			case x < 12:
+				ms[i][k] = g.List(r, depth+2)
+			default:
+				conts = append(conts, i)
+			}
+		}
+		if len(conts) == 0 {
+			continue
+		}
+		if depth < 2 {
+			for j, sub := range c20GenStack(r, g, len(conts), depth+1) {
+				ms[conts[j]][k] = sub
+			}
+			continue
+		}
+		for _, i := range conts {
+			ms[i][k] = g.Cont(r, g.MaxDepth-1)
+		}
+	}
+	out := make([]W, n)
+	for i := range ms {
+		out[i] = map[string]any{"m": ms[i]}
+	}
+	return out
+}
+
+// c20GenDocs: the documents of a case of the given origin (d2 / more only where the origin has them).
+func c20GenDocs(r *rand.Rand, g *DocGen, o string) (d1, d2 W, more []W) {
+	if o == "layers" {
+		st := c20GenStack(r, g, 3+r.Intn(3), 0)
+		return st[0], st[1], st[2:]
+	}
+	d1 = g.Doc(r)
+	if o == "merged" || o == "merged-append" || o == "overlay" {
+		d2 = c20Second(r, g, d1)
+	}
+	return
+}
 
 // the calls drawn for an overlay: its read methods, Merged once per list strategy
 var c20OverlayCalls = append(append([]string{}, c20lib.OverlayMethods...), "OverlayDocument.Merged(append)")
@@ -299,12 +371,8 @@ func c20Run(c *Ctx) {
 	for i := 0; i < c.N(1500); i++ {
 		c.Tick()
 		o := pick(r, c20Origins)
-		d1 := g.Doc(r)
-		var d2 W
-		if o == "merged" || o == "merged-append" || o == "overlay" {
-			d2 = c20Second(r, g, d1)
-		}
-		c.Do("reads", c20Reads{Origin: o, D1: d1, D2: d2, Calls: c20GenCalls(r, g, o, d1, d2, 2+r.Intn(6))})
+		d1, d2, more := c20GenDocs(r, g, o)
+		c.Do("reads", c20Reads{Origin: o, D1: d1, D2: d2, More: more, Calls: c20GenCalls(r, g, o, d1, d2, 2+r.Intn(6), more...)})
 	}
 	ops := []string{"AddValue", "AddValueAt", "AddContainer", "AddList", "Remove", "RemoveAt", "Merge", "ListAppend", "ListSet", "ListClear", "OverlayPut", "OverlayAdd", "Seal"}
 	for i := 0; i < c.N(300); i++ {
@@ -336,19 +404,22 @@ func c20Run(c *Ctx) {
 	var batch []c20lib.Case
 	for i := 0; i < rounds; i++ {
 		o := pick(r, c20Origins)
-		d1 := g.Doc(r)
-		var d2 W
-		if o == "merged" || o == "merged-append" || o == "overlay" {
-			d2 = c20Second(r, g, d1)
-		}
-		cs := c20lib.Case{Origin: o, D1: d1, D2: d2, Repeat: 2}
+		d1, d2, more := c20GenDocs(r, g, o)
+		cs := c20lib.Case{Origin: o, D1: d1, D2: d2, More: more, Repeat: 2}
 		for gi := 0; gi < 16; gi++ {
-			cs.Seqs = append(cs.Seqs, c20GenCalls(r, g, o, d1, d2, 3+r.Intn(6)))
+			cs.Seqs = append(cs.Seqs, c20GenCalls(r, g, o, d1, d2, 3+r.Intn(6), more...))
 		}
 		batch = append(batch, cs)
 	}
 	c.Tick()
-	res := c20RunRace(c, batch, 15*time.Minute)
+	// a witness search (c.deadline set) is bounded: the batch gets what is left of its budget (at least 30 s)
+	batchTimeout := 15 * time.Minute
+	if !c.deadline.IsZero() {
+		if batchTimeout = time.Until(c.deadline); batchTimeout < 30*time.Second {
+			batchTimeout = 30 * time.Second
+		}
+	}
+	res := c20RunRace(c, batch, batchTimeout)
 	c.Dist(fmt.Sprintf("race:rounds=%d", rounds))
 	if res.err != "" {
 		c.Note("race program: %s", res.err)
@@ -356,15 +427,20 @@ func c20Run(c *Ctx) {
 		return
 	}
 	c.Dist(fmt.Sprintf("race:clean-rounds=%d", res.completed))
-	for _, i := range res.flagged {
-		if i >= 0 && i < len(batch) {
+	for k, i := range res.flagged {
+		if i >= 0 && i < len(batch) && k < 6 {
 			cs := batch[i]
 			cs.Repeat = 40
 			c.Do("race", cs)
 		}
 	}
+	if c.searchMode {
+		// a witness search looks for a failing input only: nothing to sample
+		return
+	}
 	// a sample of the rounds as individually evaluated (and counted) cases
-	for i := 0; i < len(batch) && i < c.N(8); i++ {
+	for i := 0; i < len(batch) && i < c.N(8) && i < 24; i++ {
+		c.Tick()
 		c.Do("race", batch[i])
 	}
 }
@@ -573,7 +649,7 @@ func c20EvalReads(c *Ctx, p c20Reads) {
 	}
 	c.Dist("origin:" + p.Origin)
 	out, txt := guard(func() {
-		s := c20lib.Build(p.Origin, p.D1, p.D2)
+		s := c20lib.Build(p.Origin, p.D1, p.D2, p.More...)
 		s.Keep = true
 		subj := func() any {
 			if s.O != nil {
@@ -591,6 +667,14 @@ func c20EvalReads(c *Ctx, p c20Reads) {
 			}
 		}
 		before := c20lib.Fingerprint(subj())
+		var layersFP map[string]string
+		if s.O != nil {
+			layersFP = c20lib.LayerFingerprints(s.O)
+			c.Dist(fmt.Sprintf("overlay-layers:%d", len(layersFP)))
+			if p.Origin == "layers" && c20KindConflict(append([]W{p.D1, p.D2}, p.More...)) {
+				c.Dist("layers:kind-conflict-then-container-again")
+			}
+		}
 		for _, call := range p.Calls {
 			c.Dist("call:" + call.M)
 			if call.Opt != "" {
@@ -598,11 +682,31 @@ func c20EvalReads(c *Ctx, p c20Reads) {
 			}
 			o1 := s.Exec(call)
 			after := c20lib.Fingerprint(subj())
-			c.Direct("fingerprint-unchanged("+call.M+")", before == after,
-				map[string]any{"call": call, "before": c20Clip(before), "after": c20Clip(after), "diff-at": c20FirstDiff(before, after)})
+			if !c.Direct("fingerprint-unchanged("+call.M+")", before == after,
+				map[string]any{"call": call, "before": c20Clip(before), "after": c20Clip(after), "diff-at": c20FirstDiff(before, after)}) && s.O != nil {
+				// which layer of the overlay it was
+				nowL := c20lib.LayerFingerprints(s.O)
+				for _, ln := range sortedKeys(nowL) {
+					if was, ok := layersFP[ln]; ok && was != nowL[ln] {
+						c.Direct("layer-fingerprint-unchanged("+call.M+")", false,
+							map[string]any{"call": call, "layer": ln, "diff-at": c20FirstDiff(was, nowL[ln])})
+					}
+				}
+			}
+			if s.O != nil {
+				layersFP = c20lib.LayerFingerprints(s.O)
+			}
 			before = after
 			o2 := s.Exec(call)
 			c.Direct("observation-stable("+call.M+")", o1 == o2, map[string]any{"call": call, "first": c20Clip(o1), "second": c20Clip(o2)})
+			// the repeated call is a read like the first one (and what it does is not charged to the next call)
+			after = c20lib.Fingerprint(subj())
+			c.Direct("fingerprint-unchanged("+call.M+")", before == after,
+				map[string]any{"call": call, "repeated": true, "before": c20Clip(before), "after": c20Clip(after), "diff-at": c20FirstDiff(before, after)})
+			if before != after && s.O != nil {
+				layersFP = c20lib.LayerFingerprints(s.O)
+			}
+			before = after
 			c.Direct("no-panic("+call.M+")", !strings.HasPrefix(o1, "panic:"), o1)
 			if o1 != "nil" && o1 != "nil-target" && o1 != "not-applicable" {
 				c.Dist("call-effective")
@@ -616,13 +720,66 @@ func c20EvalReads(c *Ctx, p c20Reads) {
 			c.Dist("reads:several-views-retained")
 		}
 		// a second, identically built instance observes the same (content is a function of the input)
-		s2 := c20lib.Build(p.Origin, p.D1, p.D2)
+		s2 := c20lib.Build(p.Origin, p.D1, p.D2, p.More...)
+		if s.O != nil {
+			// every layer, as the overlay's own snapshot view reports it, still has the content of the same layer
+			// of an identically built overlay that nobody has read yet
+			got, want := c20lib.LayerTexts(s.O), c20lib.LayerTexts(s2.O)
+			for _, ln := range sortedKeys(want) {
+				c.Direct("layer-content-as-built-after-reads", got[ln] == want[ln], map[string]any{"layer": ln, "now": c20Clip(got[ln]), "as-built": c20Clip(want[ln])})
+			}
+		}
 		for _, call := range p.Calls {
 			a, b := s.Exec(call), s2.Exec(call)
 			c.Direct("same-content-same-observation("+call.M+")", a == b, map[string]any{"call": call, "a": c20Clip(a), "b": c20Clip(b)})
 		}
 	})
 	c.Direct("no-panic", out == "ok", txt)
+}
+
+// c20KindConflict (input statistics only): at some key, at some depth below keys where the layers hold
+// containers, the first two layers that define the key disagree in kind with a container among the two, and
+// a later layer holds a container there again.
+func c20KindConflict(layers []W) bool {
+	keys := map[string]bool{}
+	var cs []map[string]any
+	for _, l := range layers {
+		if c, ok := wireCont(l); ok {
+			cs = append(cs, c)
+			for k := range c {
+				keys[k] = true
+			}
+		}
+	}
+	for k := range keys {
+		var defs []W
+		for _, c := range cs {
+			if v, ok := c[k]; ok {
+				defs = append(defs, v)
+			}
+		}
+		var sub []W
+		for _, v := range defs {
+			if _, ok := wireCont(v); ok {
+				sub = append(sub, v)
+			}
+		}
+		if len(defs) >= 3 {
+			_, c0 := wireCont(defs[0])
+			_, c1 := wireCont(defs[1])
+			if c0 != c1 {
+				for _, v := range defs[2:] {
+					if _, ok := wireCont(v); ok {
+						return true
+					}
+				}
+			}
+		}
+		if len(sub) >= 3 && c20KindConflict(sub) {
+			return true
+		}
+	}
+	return false
 }
 
 func c20Clip(s string) string {
@@ -755,7 +912,7 @@ func c20EvalRace(c *Ctx, p c20lib.Case) {
 	c.Direct("observations-equal-single-threaded", len(res.mismatch) == 0, res.mismatch)
 	// the same sequences single-threaded leave the fingerprint alone (ties the race to a write)
 	if !c.probe {
-		s := c20lib.Build(p.Origin, p.D1, p.D2)
+		s := c20lib.Build(p.Origin, p.D1, p.D2, p.More...)
 		var subj any = s.C
 		if s.O != nil {
 			subj = s.O
